@@ -38,6 +38,16 @@ import (
 	"verif/internal/vstore"
 )
 
+// Storage-side rejection branches (the storage answers an error that is not an injected fault and the handler turns
+// it into RequestError / WriteError / http.Error). cleanRejections must be reached by a request that carries no
+// mutation at all (template as drawn: valid credentials, valid assertion, ...); anyRejections by any request.
+var (
+	cleanRejections = []string{"ValidateJWTProfileScopes", "ClientCredentialsTokenRequest", "ValidateTokenExchangeRequest", "GetKeyByIDAndClientID",
+		"SetUserinfoFromToken", "SetUserinfoFromScopes", "GetDeviceAuthorizatonState", "AuthRequestByCode", "TokenRequestByRefreshToken"}
+	anyRejections = []string{"AuthorizeClientIDSecret", "ClientCredentials", "AuthRequestByID", "RevokeToken", "CreateAuthRequest", "StoreDeviceAuthorization",
+		"SetIntrospectionFromToken", "GetClientByClientID", "GetRefreshTokenInfo"}
+)
+
 const (
 	streamCase   = 100 // ev.CaseRand stream of this front (100-199 are reserved for it)
 	batchPerCase = 60  // fuzzed requests per (case, router); harvesting flows come on top
@@ -58,6 +68,16 @@ func Run(run *ev.Run) {
 			"http:unrouted-404:"+rn, "http:typed-field-error:"+rn)
 		for _, e := range endpointNames {
 			mand = append(mand, "http:endpoint-served:"+e+":"+rn)
+		}
+		mand = append(mand, "http:jwt-bearer:scope-rejected-by-storage:"+rn, "http:implicit-form-post-callback:"+rn)
+		for _, m := range cleanRejections {
+			mand = append(mand, "http:storage-rejects-valid-request:"+m+":"+rn)
+		}
+		for _, m := range anyRejections {
+			mand = append(mand, "http:storage-rejects:"+m+":"+rn)
+		}
+		for _, s := range []string{"authorization_pending", "access_denied", "expired_token"} {
+			mand = append(mand, "http:device-state-error:"+s+":"+rn)
 		}
 		for _, g := range []string{"authorization_code", "refresh_token", "client_credentials", "jwt-bearer", "token-exchange", "device_code"} {
 			mand = append(mand, "http:grant-reached-storage:"+g+":"+rn)
@@ -299,6 +319,15 @@ func (x *world) judge(q *Req, router int, resp *opdrv.Resp) {
 	}
 	for _, e := range journal {
 		run.Count("http:storage_calls", e.Method)
+		if e.Err != "" && !e.Fault {
+			how := "mutated-request"
+			if len(q.Muts) == 0 {
+				how = "request-as-drawn"
+				run.Observed("http:storage-rejects-valid-request:" + e.Method + ":" + rn)
+			}
+			run.Observed("http:storage-rejects:" + e.Method + ":" + rn)
+			run.Count("http:storage_rejections:"+rn, e.Method+"|"+how)
+		}
 	}
 
 	// ----- 3. nothing of the grant logic after an error answer (also judged when the handler panicked later) -----
@@ -427,6 +456,9 @@ func (x *world) judge(q *Req, router int, resp *opdrv.Resp) {
 	if endpoint != "unrouted" && status != 404 && status != 405 {
 		run.Observed("http:endpoint-served:" + endpoint + ":" + rn)
 	}
+	if endpoint == "callback" && status == 200 && (bytes.Contains(body, []byte(`name="id_token"`)) || bytes.Contains(body, []byte(`name="access_token"`))) {
+		run.Observed("http:implicit-form-post-callback:" + rn)
+	}
 	if endpoint == "unrouted" && status == 404 {
 		run.Observed("http:unrouted-404:" + rn)
 	}
@@ -444,6 +476,17 @@ func (x *world) judge(q *Req, router int, resp *opdrv.Resp) {
 		for _, e := range journal {
 			if e.Mutating() {
 				run.Observed("http:grant-reached-storage:" + g + ":" + rn)
+			}
+		}
+		if g == "device_code" && status >= 400 && (oerr == "authorization_pending" || oerr == "access_denied" || oerr == "expired_token") {
+			run.Observed("http:device-state-error:" + oerr + ":" + rn)
+		}
+		if g == "jwt-bearer" && status == 400 && oerr == "invalid_scope" {
+			for _, e := range journal {
+				if e.Method == "ValidateJWTProfileScopes" && e.Err != "" && !e.Fault {
+					// the storage was asked, so the assertion had been verified as valid
+					run.Observed("http:jwt-bearer:scope-rejected-by-storage:" + rn)
+				}
 			}
 		}
 		if status == 200 && endpoint == "token" {
